@@ -1,5 +1,7 @@
 import PPProofs.Props.C04
 import PPProofs.Lemmas.LRIter
+import PPProofs.Lemmas.LRGrow
+import PPProofs.Lemmas.ParseAdv
 /-!
 # C04 — a DIRECT left-recursive rule `E <<= (E + tail) | base` parses as the iterative grammar `base (tail)*`
 
@@ -266,5 +268,76 @@ example : iterLoop exTail true 7 1 [.n 1] ≠ .hang :=
         · cases h; omega
         · cases h)
     (by intro e h; unfold exTail at h; split at h <;> cases h) 7 1 _ (by omega) (by omega)
+
+/-! ## The transcribed parser: `parseLR` on `E = Forward(MatchFirst [And (E :: t…), b])`
+
+`DirectLR` (PPProofs/Lemmas/LRBody.lean) fixes the shape in the node table and the flags: no parse actions / results names
+on `E`, `m`, `sq`.  `b` and `t…` lie in a part `D` of the table that is closed, present and Forward-free (`FwdFree`), so
+they are parsed by the plain model parser whatever the in-growth entries are (`parseLR_frame`):
+`baseOf g s f b pre a = parse g s f b pre a true`, `tailOf g s f ts a e = andRest (parse g s f) … ts false e []`.
+`enhFix pre` is `ParseElementEnhance.parseImpl`'s `pbe.loc = pbe.loc or loc` on the Forward. -/
+
+theorem idxConv_of_ne (nd : Node) (slen pre : Nat) (o : Out) (h : o ≠ .idx) : idxConv nd slen pre o = o := by
+  cases o with
+  | idx => exact absurd rfl h
+  | ok e ts => rfl
+  | fail c l => rfl
+  | hang => rfl
+
+theorem iterRef_ne_idx (slen loc : Nat) (base : Bool → Out) (tail : Bool → Nat → Out) (a : Bool) (k : Nat) :
+    iterRef slen loc base tail a k ≠ .idx := by
+  unfold iterRef
+  cases hb : base a with
+  | ok e ts => exact iterLoop_ne_idx tail a k e ts
+  | fail c l => exact mfSecond_ne_idx slen loc _
+  | idx => exact mfSecond_ne_idx slen loc _
+  | hang => exact mfSecond_ne_idx slen loc _
+
+/-- **C04 on the model parser (first half)**: `parseLR` on a direct left-recursive rule whose base and tail are
+    Forward-free equals the iterative reference `base (tail)*` evaluated with the plain model parser.
+    `pre` is where the Forward's own pre-parse (whitespace / ignorables) ends; `hpre` says the pre-parse of the `And` does
+    not move from there (it repeats the Forward's own skipping, or `callPreparse` is off); `henv`: no growth of `E` is in
+    progress at `pre` (the outermost visit).  That a base match ends at or after `pre` is a theorem here (`parse_adv`).
+
+    NAMED `_partial` because the second half is missing: `iterRef … (baseOf …) (tailOf …)` is not yet shown equal to the
+    model's `parse` of a node table for `And [b, ZeroOrMore (And [t…])]` (that needs: the wrappers of those three nodes
+    — pre-parse of the `And`s / `ZeroOrMore`, IndexError conversion — and `manyLoop`'s `len+2` budget vs `iterLoop`'s;
+    `iterLoop` has the shape of `manyLoop` with `stop_on = None` and no ignorables).  Also not covered: parse actions /
+    results names on `E`, `m`, `sq`; base / tail that contain Forwards (e.g. a parenthesised recursion). -/
+theorem parseLR_direct_eq_iterative_partial {g : Grammar} {E m sq b : Nat} {ts : List Nat} {nE nm nsq : Node}
+    (h : DirectLR g E m sq b ts nE nm nsq) (s : List Char) {D : Nat → Prop} (hD : FwdFree g D) (hb : D b)
+    (hts : ∀ t ∈ ts, D t) (f : Nat) (env : Env) (loc pre : Nat) (acts callPre : Bool)
+    (hpreE : (if callPre && nE.callPre then preParse (parseLR g s (f + 3) env) nE s loc else PreR.at loc) = .at pre)
+    (hpre : ∀ p, (if nsq.callPre then preParse p nsq s pre else PreR.at pre) = .at pre)
+    (henv : env.get ⟨E, pre, acts⟩ = none)
+    (hadv : ∀ e e' ts', pre ≤ e → tailOf g s (f + 1) ts false e = .ok e' ts' → e < e')
+    (hbase : acts = true → AgreeOut (baseOf g s (f + 2) b pre false) (baseOf g s (f + 2) b pre true))
+    (htail : acts = true → ∀ e, pre ≤ e → AgreeOut (tailOf g s (f + 1) ts false e) (tailOf g s (f + 1) ts true e)) :
+    parseLR g s (f + 4) env E loc acts callPre
+      = enhFix pre (iterRef s.length pre (baseOf g s (f + 2) b pre) (tailOf g s (f + 1) ts) acts (s.length + 1)) := by
+  have hge : ∀ e0 ts0, baseOf g s (f + 2) b pre false = .ok e0 ts0 → pre ≤ e0 :=
+    fun e0 ts0 h0 => parse_adv g s (f + 2) b pre false true e0 ts0 h0
+  rw [parseLR]
+  dsimp only
+  rw [parseStepWith_plain g s _ _ E nE loc pre acts callPre h.hE h.aE (by intro ts; simp [postParse, h.kE]) hpreE]
+  simp only [h.kE, henv]
+  have key : growLoop (fun a' pk ak => enhanceImpl (parseLR g s (f + 3) (growEnv env E pre acts pk ak)) a' (some m) pre)
+      acts pre (s.length + 2) (.fail .parse pre) (.fail .parse pre)
+      = enhFix pre (iterRef s.length pre (baseOf g s (f + 2) b pre) (tailOf g s (f + 1) ts) acts (s.length + 1)) := by
+    rw [growLoop_congr _ (fun a' pk ak => enhFix pre (lrBody s.length (baseOf g s (f + 2) b pre) (tailOf g s (f + 1) ts) a' pk ak))
+      acts pre (by
+        intro a' pk ak ha hpk hak
+        exact parseLR_body_eq_lrBody h s hD hb hts f env pre acts a' pk ak hpre (by cases a' <;> simpa) ha)
+      (s.length + 2) (.fail .parse pre) (.fail .parse pre) trivial trivial]
+    rw [growLoop_enhFix (lrBody s.length (baseOf g s (f + 2) b pre) (tailOf g s (f + 1) ts)) acts pre pre
+      (s.length + 2) _ _ (enhFix_seed pre) (enhFix_seed pre)]
+    congr 1
+    cases acts with
+    | false => exact lr_direct_eq_iterative s.length pre _ _ (s.length + 1) hge hadv
+    | true => exact lr_direct_eq_iterative_acts s.length pre _ _ (s.length + 1) hge hadv (hbase rfl) (htail rfl)
+  have key' := key
+  unfold growEnv at key'
+  rw [key']
+  exact idxConv_of_ne nE s.length pre _ (enhFix_ne_idx pre _ (iterRef_ne_idx _ _ _ _ _ _))
 
 end PP.Parse
